@@ -51,7 +51,7 @@ def render(file_kinds, variant):
 
 def run_meme(st, variant):
     text, expect = render(st["file"], variant)
-    path = os.path.join(TMP, "m%d.meme" % variant)
+    path = os.path.join(TMP, "m%d.meme" % os.getpid())      # ONE path per process, rewritten for every case: the file is what counts
     with open(path, "w", newline="") as f:
         f.write(text)
     out = dict(op="meme")
@@ -86,7 +86,7 @@ def sigval(c, q):
     return 1000 * c + q
 
 
-def build_inputs(genome, variant, tag):
+def build_inputs(genome, variant, tag, gaps=None):
     names = ["chr%d" % (i + 1) for i in range(len(genome))]
     seq_mem = {}
     strs = []
@@ -103,7 +103,10 @@ def build_inputs(genome, variant, tag):
                 s.append("N" if rng.random() < 0.7 else "n")
         seq_mem[nm] = a
         strs.append("".join(s))
-    sig_mem = {nm: numpy.array([sigval(i, q) for q in range(len(g))], dtype=numpy.float64) for i, (nm, g) in enumerate(zip(names, genome))}
+    # positions without coverage: NaN in the in-memory arrays, missing intervals in the bigWig; both read as 0
+    gapset = {(ch, q) for (ch, lo, hi) in (gaps or []) for q in range(lo, hi)}
+    sig_mem = {nm: numpy.array([numpy.nan if (i, q) in gapset else sigval(i, q) for q in range(len(g))], dtype=numpy.float64)
+               for i, (nm, g) in enumerate(zip(names, genome))}
     fa = os.path.join(TMP, "g%s.fa" % tag)
     with open(fa, "w") as f:
         for nm, s in zip(names, strs):
@@ -115,7 +118,15 @@ def build_inputs(genome, variant, tag):
     bw = pyBigWig.open(bwp, "w")
     bw.addHeader([(nm, len(g)) for nm, g in zip(names, genome)])
     for i, (nm, g) in enumerate(zip(names, genome)):
-        bw.addEntries(nm, 0, values=[float(sigval(i, q)) for q in range(len(g))], span=1, step=1)
+        q = 0
+        while q < len(g):                   # one run of entries per covered stretch
+            if (i, q) in gapset:
+                q += 1; continue
+            e = q
+            while e < len(g) and (i, e) not in gapset:
+                e += 1
+            bw.addEntries(nm, q, values=[float(sigval(i, t)) for t in range(q, e)], span=1, step=1)
+            q = e
     bw.close()
     return names, seq_mem, sig_mem, fa, bwp
 
@@ -147,8 +158,10 @@ def run_loci(c, variant):
     ev = dict(c)
     ev.update(op="loci", valid=True, mem=dict(seqs=[], sigs=[], insigs=[]), file=dict(seqs=[], sigs=[], insigs=[]), hasfile=False,
               variant=variant)
-    names, seq_mem, sig_mem, fa, bwp = build_inputs(c["genome"], variant, "%d_%d" % (os.getpid(), variant))
+    names, seq_mem, sig_mem, fa, bwp = build_inputs(c["genome"], variant, "%d_%d" % (os.getpid(), variant), c.get("gaps"))
     dfs = [pandas.DataFrame([[names[l[0]], l[1], l[2]] for l in s], columns=["chrom", "start", "end"]) for s in c["sets"]]
+    if variant % 4 == 2:        # tables whose index is not 0..n-1 (filtered / concatenated without reset_index): row ORDER is what counts
+        dfs = [d.set_index(pandas.Index([(7 * k + 3 * j) % 50 for k in range(len(d))][::-1])) for j, d in enumerate(dfs)]
     loci = dfs[0] if len(dfs) == 1 and variant % 2 else dfs
     kw = dict(in_window=c["inw"], out_window=c["outw"], max_jitter=c["jit"],
               min_counts=None if c["minc"] < 0 else c["minc"], max_counts=None if c["maxc"] < 0 else c["maxc"],
@@ -216,6 +229,13 @@ def gen_loci(rng):
     c = dict(genome=genome, sets=sets, allowed=[] if rng.random() < 0.7 else sorted(rng.sample(range(nchrom), rng.randint(1, nchrom))),
              inw=inw, outw=outw, jit=jit, minc=-1, maxc=-1, nloci=-1 if rng.random() < 0.7 else rng.randint(1, 5),
              sig=sig, insig=rng.random() < 0.3)
+    if (sig or c["insig"]) and rng.random() < 0.4:
+        c["gaps"] = []
+        for _ in range(rng.randint(1, 3)):
+            ch = rng.randrange(nchrom); lo = rng.randrange(len(genome[ch]) - 1)
+            c["gaps"].append([ch, lo, min(len(genome[ch]), lo + rng.randint(1, 6))])
+    else:
+        c["gaps"] = []
     if sig and rng.random() < 0.4:
         tot = outw + 2 * jit
         base_v = tot * rng.randint(5, 40)
